@@ -241,7 +241,8 @@ def build_designspace(fam, module):
         s = SourceDescriptor()
         if sparse.get("own_ufo"):
             # the sparse master is a font of its own (a source without a layer name) holding only its glyphs
-            f = S.build({"info": dict(sp.get("info", {})), "glyphs": [g for g in sp["glyphs"] if g["name"] in sparse["names"]], "lib": {}}, module)
+            # ... and the same lib (a source with other lib filters than its siblings makes the pre-processor run the filters master by master)
+            f = S.build({"info": dict(sp.get("info", {})), "glyphs": [g for g in sp["glyphs"] if g["name"] in sparse["names"]], "lib": copy.deepcopy(sp.get("lib", {}))}, module)
             fonts.append(f)
             s.font = f
         else:
